@@ -284,8 +284,11 @@ def do_step(w, op):
         i = w.pick(lambda o: not o.is_ttm and size_ok(o) and int(np.prod(o.N)) <= 4096)
         if i is None: return None
         x = P[i]
-        o = torchtt.TT(x.full(), x.N, eps=1e-12)
-        w.add(o, "KNew %s" % shlist_coq(o)); return "TT(full(%d), N of %d)" % (i, i), None
+        lst = list(x.N)
+        o = torchtt.TT(x.full(), lst, eps=1e-12)
+        w.add(o, "KNew %s" % shlist_coq(o))
+        lst[rng.randrange(len(lst))] = 97          # the list handed IN is the caller's too: editing it afterwards must not reach the object
+        return "TT(full(%d), N of %d)" % (i, i), None
     if op == "ctor_bad":
         # malformed core lists (mixed 3-d / 4-d cores, broken chaining, boundary rank != 1) through TT(), rank1TT and random(): each must raise;
         # whatever is returned instead joins the pool and is held to the same well-formedness as every other object
